@@ -166,6 +166,7 @@ fn check_system(rep: &mut Report, seed: u64, index: u64, tier: Tier, oracle_proc
             continue;
         };
         *rep.counters.entry(format!("expected_{}", if matches!(expect, Verdict::Fail(_)) { "fail" } else { "success" })).or_insert(0) += 1;
+        let full_matrix = tier == Tier::Thorough || k == *bounds.iter().max().unwrap();
         for (pi, profile) in PROFILES.iter().enumerate() {
             // cvc5 1.0 only accepts values under the non-standard `as const`; systems with a non-literal
             // constant array are judged with z3 only
@@ -175,6 +176,11 @@ fn check_system(rep: &mut Report, seed: u64, index: u64, tier: Tier, oracle_proc
             }
             for individually in [false, true] {
                 for simplify in [false, true] {
+                    // quick tier: the full profile x mode x simplify matrix at the larger bound, the four
+                    // profiles (joint, unsimplified) at the smaller one
+                    if !full_matrix && (individually || simplify) {
+                        continue;
+                    }
                     // check_constraints only where the constraints are satisfiable at every step (documented assert otherwise)
                     let check_constraints = cons_ok && (index + pi as u64) % 2 == 0;
                     rep.count("obligations", 1);
